@@ -9,7 +9,7 @@ import fpy2 as fp
 
 PROP = 'C04'
 
-REALS = [1.5, -2.25, 0.1, 3.0, 1e-3, 100.0, -0.0, 0.0, float('inf'), float('-inf'), float('nan'), 1e300, -7.0, 0.3, 65504.0, 2.0 ** -30, 5, -3]
+REALS = [1.5, -2.25, 0.1, 3.0, 1e-3, 100.0, -0.0, 0.0, float('inf'), float('-inf'), float('nan'), 1e300, -7.0, 0.3, 65504.0, 2.0 ** -30, 5, -3, 2.0 ** 20, 2.0 ** 100, -(2.0 ** -26)]
 CALL_CTXS = [None, None, None, 'fp.FP32', 'fp.REAL', 'fp.IEEEContext(5, 16, fp.RM.RTZ)', 'fp.MPFloatContext(4, fp.RM.RNA)', 'fp.FixedContext(True, -4, 16, fp.RM.RNE, fp.OV.SATURATE)']
 
 def top_level(sx: str) -> list[str]:
@@ -39,6 +39,25 @@ def run(rep, tier, seed):
     tmp = tempfile.mkdtemp(prefix='fpyverif_c04_', dir='/var/tmp')
     lines, meta = [], []
     try:
+        # corpus first: hand-written programs pinning documented rules at their edges
+        from xform import load_module, arg_kinds, gen_inputs
+        corp = load_module(os.path.join(os.path.dirname(__file__), 'corpus', 'c04_corpus.py'), 'fpyverif_C04_corpus')
+        CORPUS_REALS = [1.5, 0.1, 3.0, 2.0, 2.0 ** 20, 2.0 ** -30, 100.0, -7.0, 4.0, 1.0, 5.0, float('inf'), -0.0]
+        for fn in corp.ALL:
+            try:
+                entry, prog = export_program(fn)
+            except Unsupported as e:
+                rep.count('corpus-export-unsupported:' + str(e)[:40]); continue
+            rep.count('programs')
+            kinds = arg_kinds(fn)
+            for ii in range(10 if tier == 'quick' else 40):
+                args = tuple([R.choice(CORPUS_REALS) for _ in range(R.choice([0, 1, 2, 3, 4]))] if k == 'L' else R.choice(CORPUS_REALS) for k in kinds)
+                cs = R.choice(CALL_CTXS)
+                ctx = None if cs is None else eval(cs, {'fp': fp})
+                got = run_real(fn, args, ctx)
+                if got.startswith(('timeout', 'unsupported')): continue
+                lines.append(eval_line(entry, prog, args, ctx, fuel=100000))
+                meta.append((-1, corp.__file__, args, cs, got))
         for pi in range(nprog):
             funcs = G.program(pi)
             path = os.path.join(tmp, f'p{pi}.py')
@@ -80,8 +99,12 @@ def run(rep, tier, seed):
             rep.count('outcome:' + (got.split()[1] if got.startswith('err') else 'ok'))
             rep.count('callctx:' + str(cs))
             if got != mod_out:
-                rep.broke('correspondence', 'C04.eval',
-                          f'program={open(path).read()}\nargs={args!r} ctx={cs}\nimpl ={got}\nmodel={mod_out}\nline={line}')
+                # the Lean evaluator is the independent reading of the documented semantics the property asks for:
+                # a run on which the implementation returns something else is a failing input of the property itself
+                src = open(path).read()
+                rep.violation(f'the interpreter returns {got[:90]} but the documented semantics (Lean evaluator) gives {mod_out[:90]}',
+                              {'program': src if pi >= 0 else f'corpus program run by line: {line[:200]}', 'args': repr(args), 'ctx': cs,
+                               'impl': got, 'documented_semantics': mod_out, 'line': line, 'finding': None})
             if len(rep.cov['samples']) < 4:
                 rep.sample({'source': open(path).read(), 'args': repr(args), 'ctx': cs, 'impl': got, 'model': mod_out})
         for k, v in G.stats.items(): rep.count('gen:' + k, v)
